@@ -66,8 +66,9 @@ class FImm:
 class DImm:
     def __init__(self, bits): self.bits = bits
 class Mem:
-    def __init__(self, ty, disp=0, base=None, index=None, scale=1):
+    def __init__(self, ty, disp=0, base=None, index=None, scale=1, alias=None):
         self.ty, self.disp, self.base, self.index, self.scale = ty, disp, base, index, scale
+        self.alias = alias   # MIR alias name (an optimisation promise; no meaning in the reference semantics)
 class Lab:
     def __init__(self, n): self.n = n
 class Ref:
@@ -129,11 +130,12 @@ class Program:
             if o.base is None and o.index is None:
                 return s + str(o.disp)
             if o.disp != 0: s += str(o.disp)
+            al = (':' + o.alias) if getattr(o, 'alias', None) else ''
             if o.index is None:
-                return s + '(%s)' % o.base
+                return s + '(%s)' % o.base + al
             b = o.base if o.base is not None else '0'
             # MIR text has no way to omit the base when an index is given; generator always gives a base
-            return s + '(%s, %s, %d)' % (b, o.index, o.scale)
+            return s + '(%s, %s, %d)' % (b, o.index, o.scale) + al
         raise ValueError(o)
 
     def text(self):
@@ -245,8 +247,9 @@ def fmt_f32(bits):
 
 # ---- function generator ----------------------------------------------------------------------------
 class PtrInfo:
-    def __init__(self, reg, size, writable, init=True):
+    def __init__(self, reg, size, writable, init=True, alias=None):
         self.reg, self.size, self.writable, self.init = reg, size, writable, init
+        self.alias = alias   # alias name usable for accesses through this pointer (disjoint from all others)
 
 
 class FG:
@@ -313,16 +316,16 @@ class FG:
         if form < 0.3:     # base + disp
             disp = r.randrange(0, p.size - sz + 1)
             if r.random() < 0.5: disp -= disp % sz
-            return Mem(ty, disp, p.reg)
+            return self.with_alias(Mem(ty, disp, p.reg), p)
         scale = r.choice([1, 2, 4, 8])
         # index in [0, mask], mask = 2^k - 1, disp + mask*scale + sz <= size
         maxidx = (p.size - sz) // scale
         if maxidx < 1:
-            return Mem(ty, r.randrange(0, p.size - sz + 1), p.reg)
+            return self.with_alias(Mem(ty, r.randrange(0, p.size - sz + 1), p.reg), p)
         k = (maxidx + 1).bit_length() - 1
         mask = (1 << k) - 1
         if mask < 1:
-            return Mem(ty, r.randrange(0, p.size - sz + 1), p.reg)
+            return self.with_alias(Mem(ty, r.randrange(0, p.size - sz + 1), p.reg), p)
         room = p.size - sz - mask * scale
         disp = r.randrange(0, room + 1) if form < 0.8 else 0
         ix = self.new_local('ix')
@@ -330,7 +333,15 @@ class FG:
         self.p.features.add('mem:index')
         if disp: self.p.features.add('mem:disp')
         if scale > 1: self.p.features.add('mem:scale')
-        return Mem(ty, disp, p.reg, ix, scale)
+        return self.with_alias(Mem(ty, disp, p.reg, ix, scale), p)
+
+    def with_alias(self, m, p):
+        # alias names promise the optimiser that accesses with different names never overlap: one name
+        # per harness region / alloca block, used on about half of the accesses (no name = may alias all)
+        if p.alias and self.rng.random() < self.opts.get('p_alias', 0.5):
+            m.alias = p.alias
+            self.p.features.add('mem:alias')
+        return m
 
     def src64(self, allow_mem=True):
         k = self.rng.random()
@@ -881,8 +892,8 @@ class FG:
                 n = 'fr%d' % i; f.locals.append(('f', n)); self.FR.append(n)
             for i in range(r.randrange(2, 5)):
                 n = 'dr%d' % i; f.locals.append(('d', n)); self.DR.append(n)
-        for rn, size, w in self.ptr_args:
-            self.P.append(PtrInfo(rn, size, w))
+        for k, (rn, size, w) in enumerate(self.ptr_args):
+            self.P.append(PtrInfo(rn, size, w, alias=('rg%d' % k) if self.f.name == 'main' else None))
         int_args = [rn for t, rn in f.args if t in INT_TYPES and rn not in [p[0] for p in self.ptr_args]
                     and not (self.selfinfo and rn == self.selfinfo['depth_reg'])]
         # entry: top-level allocas (adjacent: consolidated by simplify), then initialise every register
@@ -958,7 +969,7 @@ class FG:
                     self.emit('mov', Mem('i64', off, pr), self.X_()); off += 8
                 else:
                     self.emit('mov', Mem('u8', off, pr), self.X_()); off += 1
-            self.P.append(PtrInfo(pr, n, True))
+            self.P.append(PtrInfo(pr, n, True, alias='al' + pr))
         # blocks
         labs = [self.label() for _ in range(nblocks)]
         lret = self.label()
@@ -1186,12 +1197,16 @@ def parse_text(text, args=None, oracle=None, regions=None):
 
     def parse_op(s, names):
         s = s.strip()
+        alias = None
+        ma = re.match(r'^(.*\)):(\w+)$', s)
+        if ma:
+            s, alias = ma.group(1), ma.group(2)
         m = re.match(r'^(\w+):\s*(-?\d+)?\s*(?:\(\s*(\w+)\s*(?:,\s*(\w+)\s*(?:,\s*(\d+)\s*)?)?\))?$', s)
         if m and (m.group(1) in TSIZE or m.group(1).startswith(('blk', 'rblk'))):
             ty = m.group(1)
             if ty.startswith(('blk', 'rblk')):
                 return Mem('%s:%s' % (ty, m.group(2)), 0, m.group(3))
-            return Mem(ty, int(m.group(2) or 0), m.group(3), m.group(4), int(m.group(5) or 1))
+            return Mem(ty, int(m.group(2) or 0), m.group(3), m.group(4), int(m.group(5) or 1), alias)
         if re.match(r'^-?(0x[0-9a-fA-F]+|\d+)$', s):
             return Imm(int(s, 0))
         if re.match(r'^-?\d+\.\d*(e[-+]?\d+)?f$', s) or re.match(r'^-?\d+e[-+]?\d+f$', s):
